@@ -255,7 +255,7 @@ func c11SignCheck(c c11Sign) (fs []rep.Finding) {
 type c11Err struct {
 	NIn    int  `json:"nin"`
 	Pos    int  `json:"pos"`
-	Kind   int  `json:"kind"` // 0 nil, 1 empty, 2 P2PK, 3 P2SH, 4 data, 5 multisig, 6 p2pkh with trailing byte
+	Kind   int  `json:"kind"` // 0 nil, 1 empty, 2 P2PK, 3 P2SH, 4 data, 5 multisig, 6 p2pkh with trailing byte, 7..11 P2PKH look-alikes
 	Signed bool `json:"signed"`
 }
 
@@ -282,6 +282,16 @@ func c11ErrCheck(c c11Err) (fs []rep.Finding) {
 		tx.Inputs[c.Pos].PreviousTxScript = libScript(tp["ms1of1"])
 	case 6:
 		tx.Inputs[c.Pos].PreviousTxScript = libScript(append(append([]byte(nil), tp["p2pkh"]...), 0x61))
+	case 7, 8, 9, 10, 11:
+		// scripts that look like P2PKH once push prefixes are dropped, but are not the 25-byte template
+		h := fill(20, 0x5c)
+		tx.Inputs[c.Pos].PreviousTxScript = libScript([][]byte{
+			bytesJoin([]byte{0x76, 0xa9, 0x4c, 0x14}, h, []byte{0x88, 0xac}),
+			bytesJoin([]byte{0x76, 0xa9, 0x14}, h, []byte{0x88, 0x01, 0xac}),
+			bytesJoin([]byte{0x01, 0x76, 0x01, 0xa9, 0x14}, h, []byte{0x01, 0x88, 0x01, 0xac}),
+			bytesJoin([]byte{0x76, 0xa9, 0x15}, h, []byte{0x00, 0x88, 0xac}),
+			bytesJoin([]byte{0x61, 0x76, 0xa9, 0x14}, h, []byte{0x88, 0xac}),
+		}[c.Kind-7])
 	}
 	if c.Signed {
 		for _, in := range tx.Inputs {
@@ -306,7 +316,7 @@ func c11ErrCheck(c c11Err) (fs []rep.Finding) {
 
 func init() {
 	p := register(&Prop{ID: "C11", Level: "exploration",
-		Rule: "exhaustive: (accounting) every multiset-ordered choice of <=2 (quick) / <=3 (thorough) outputs from 13 script kinds (P2PKH, OP_RETURN alone/empty/1/75/76-byte, OP_FALSE OP_RETURN with 65536-byte payload and bare, `00`, `00 51 6a`, empty, OP_RETURN not first) x inputs 0..3 x signing state (none/all/first/short scripts) x 11 fee quotes (independent std/data rates incl. >1 sat/byte, non-dyadic rates, zero) x in-out placed at {fee-1, fee, fee+1, out>in, equal, ample} relative to the big-integer reference fee of the actual and of the estimated size: TotalBytes=len(bytes)=Std+Data, fee = floor+floor, predicates exact; (signed) 8 keys x nIn 1..3 x nOut 0..2 x every subset of inputs pre-signed x plain/inscription spent script, paying to the hash of the compressed key, of the uncompressed form of the same key, or of another key: EstimateSize >= size after FillAllInputs; (counts) 252/253/254 outputs with 0..2 inputs and 252/253/254 inputs with 0..2 outputs x quotes x fee relations; (errors) every position x 7 missing/unsupported spent scripts x signed/unsigned: every estimator returns an error; (wrap) outputs totalling 2^64-4 and more against inputs of 1000; (quote forms) the same quotes assembled through 6 other call sequences (Fee objects labelled with the other type, unlabelled, through FeeQuotes.UpdateMinerFees, update of existing entries, relabelled copy, a fresh default quote after another default quote's Fee objects were changed in place); (builders) outputs built by AddOpReturnOutput / AddOpReturnPartsOutput / CreateOpReturnOutput for item lengths {1,2,75,76,255,256,65535,65536} (single and pairs) and AddHashPuzzleOutput: script equals the reference layout and is counted as data / standard bytes accordingly. distinct_nontrivial = distinct (tx bytes, quote, relation) triples",
+		Rule: "exhaustive: (accounting) every multiset-ordered choice of <=2 (quick) / <=3 (thorough) outputs from 13 script kinds (P2PKH, OP_RETURN alone/empty/1/75/76-byte, OP_FALSE OP_RETURN with 65536-byte payload and bare, `00`, `00 51 6a`, empty, OP_RETURN not first) x inputs 0..3 x signing state (none/all/first/short scripts) x 11 fee quotes (independent std/data rates incl. >1 sat/byte, non-dyadic rates, zero) x in-out placed at {fee-1, fee, fee+1, out>in, equal, ample} relative to the big-integer reference fee of the actual and of the estimated size: TotalBytes=len(bytes)=Std+Data, fee = floor+floor, predicates exact; (signed) 8 keys x nIn 1..3 x nOut 0..2 x every subset of inputs pre-signed x plain/inscription spent script, paying to the hash of the compressed key, of the uncompressed form of the same key, or of another key: EstimateSize >= size after FillAllInputs; (counts) 252/253/254 outputs with 0..2 inputs and 252/253/254 inputs with 0..2 outputs x quotes x fee relations; (errors) every position x 12 missing/unsupported spent scripts (incl. five P2PKH look-alikes: hash through PUSHDATA1, opcodes as pushed bytes, 21-byte hash, leading NOP) x signed/unsigned: every estimator returns an error; (wrap) outputs totalling 2^64-4 and more against inputs of 1000; (quote forms) the same quotes assembled through 8 other call sequences (refreshed from JSON into a quote object that already held default / other rates, Fee objects labelled with the other type, unlabelled, through FeeQuotes.UpdateMinerFees, update of existing entries, relabelled copy, a fresh default quote after another default quote's Fee objects were changed in place); (builders) outputs built by AddOpReturnOutput / AddOpReturnPartsOutput / CreateOpReturnOutput for item lengths {1,2,75,76,255,256,65535,65536} (single and pairs) and AddHashPuzzleOutput: script equals the reference layout and is counted as data / standard bytes accordingly. distinct_nontrivial = distinct (tx bytes, quote, relation) triples",
 	})
 	sA := NewSpace(p, "accounting", c11Check)
 	sS := NewSpace(p, "signed", c11SignCheck)
@@ -373,7 +383,7 @@ func init() {
 			for nin := 1; nin <= 2; nin++ {
 				for _, q := range c11Quotes {
 					for rel := 0; rel < 3; rel++ {
-						for form := 1; form <= 6; form++ {
+						for form := 1; form <= 8; form++ {
 							bc = append(bc, c11Case{Outs: os, NIn: nin, Signed: 2, Q: q, Rel: rel, QForm: form}, c11Case{Outs: os, NIn: nin, Signed: 0, Q: q, Rel: rel, OnEst: true, QForm: form})
 						}
 					}
@@ -439,7 +449,7 @@ func init() {
 		var ec []c11Err
 		for nin := 1; nin <= 3; nin++ {
 			for pos := 0; pos < nin; pos++ {
-				for k := 0; k < 7; k++ {
+				for k := 0; k < 12; k++ {
 					ec = append(ec, c11Err{nin, pos, k, false}, c11Err{nin, pos, k, true})
 				}
 			}
